@@ -215,6 +215,7 @@ func mergeContracts(dst, src *FuncContract) {
 	dst.Reach = append(dst.Reach, src.Reach...)
 	dst.Sends = append(dst.Sends, src.Sends...)
 	dst.Guarded = append(dst.Guarded, src.Guarded...)
+	dst.LitEns = append(dst.LitEns, src.LitEns...)
 	dst.Effects = append(dst.Effects, src.Effects...)
 	dst.NPTags = append(dst.NPTags, src.NPTags...)
 	for k, v := range src.Inv {
@@ -526,6 +527,15 @@ func (w *World) stmtTextAt(pos token.Pos) string {
 					w.stmtPos = map[token.Pos]token.Pos{}
 				}
 				w.stmtPos[pos] = n.Pos()
+			case *ast.SelectStmt:
+				// the select instruction itself: "select {"
+				if pos == n.Pos() {
+					t = "select {"
+					if w.stmtPos == nil {
+						w.stmtPos = map[token.Pos]token.Pos{}
+					}
+					w.stmtPos[pos] = n.Pos()
+				}
 			case *ast.IfStmt:
 				// the condition of an if statement: "if cond {" (first line only);
 				// positions inside the init statement belong to that statement
@@ -580,6 +590,13 @@ func (w *World) stmtOrdinal(fn *ssa.Function, sp token.Pos, txt string) int {
 				t = t[:i]
 			}
 			if normText(t) == txt {
+				n++
+				if x.Pos() == sp {
+					found = n
+				}
+			}
+		case *ast.SelectStmt:
+			if txt == "select {" {
 				n++
 				if x.Pos() == sp {
 					found = n
